@@ -84,6 +84,8 @@ impl From<&SvgElement> for ElementMatch {
 #[derive(Debug, Default, Clone)]
 struct Scope {
     vars: HashMap<String, String>,
+    /// when each variable was assigned last (a count of assignments)
+    assigned: HashMap<String, u64>,
     defaults: Vec<(ElementMatch, SvgElement)>,
 }
 
@@ -140,6 +142,8 @@ pub struct TransformerContext {
     /// Are we in a <specs> block?
     pub in_specs: bool,
     /// The event-representation of the entire input SVG
+    /// how many assignments to variables there have been
+    assignments: u64,
     pub events: Vec<InputEvent>,
     /// ... and a hash of them, from which the id for local styles derives
     events_hash: u64,
@@ -186,6 +190,7 @@ impl Default for TransformerContext {
             current_depth: 0,
             real_svg: false,
             in_specs: false,
+            assignments: 0,
             events: Vec::new(),
             events_hash: 0,
             config: TransformConfig::default(),
@@ -465,12 +470,15 @@ impl TransformerContext {
                 continue;
             }
             for (name, value) in &now.vars {
-                let assigned = before.vars.get(name) != Some(value);
-                let untouched = current.scope_stack[level].vars.get(name) == before.vars.get(name);
+                let assigned = now.assigned.get(name) != before.assigned.get(name);
+                let untouched =
+                    current.scope_stack[level].assigned.get(name) == before.assigned.get(name);
                 if assigned && untouched {
-                    Rc::make_mut(&mut current.scope_stack[level])
-                        .vars
-                        .insert(name.clone(), value.clone());
+                    let scope = Rc::make_mut(&mut current.scope_stack[level]);
+                    scope.vars.insert(name.clone(), value.clone());
+                    if let Some(when) = now.assigned.get(name) {
+                        scope.assigned.insert(name.clone(), *when);
+                    }
                 }
             }
         }
@@ -659,8 +667,11 @@ impl TransformerContext {
     pub fn set_var(&mut self, name: &str, value: &str) {
         #[cfg(feature = "verif-hooks")]
         crate::verif::sched_point("set_var");
+        self.assignments += 1;
+        let when = self.assignments;
         let scope = self.ensure_scope();
         scope.vars.insert(name.into(), value.into());
+        scope.assigned.insert(name.into(), when);
     }
 
     /// The configured limit on the length (in characters) of a variable's value,
